@@ -350,7 +350,7 @@ def _shards(tier):
     if tier == "quick":
         cfgs = [({"gens": 2, "steps": 2, "contexts": 3}, 3), ({"gens": 1, "steps": 3, "contexts": 4}, 3)]
     else:
-        cfgs = [({"gens": 2, "steps": 3, "contexts": 2}, 4), ({"gens": 1, "steps": 4, "contexts": 2}, 4), ({"gens": 2, "steps": 2, "contexts": 3}, 3)]
+        cfgs = [({"gens": 2, "steps": 2, "contexts": 4}, 3), ({"gens": 1, "steps": 4, "contexts": 2}, 4), ({"gens": 1, "steps": 3, "contexts": 4}, 3)]
     out = []
     for base, depth in cfgs:
         out += [dict(base, prefix=p) for p in enumerate_prefixes(body_E1, "X", {}, base, depth)]
@@ -380,6 +380,6 @@ OBLIGATIONS = [
         shards=_shards,
         twin=[{"gens": 2, "steps": 2, "contexts": 3, "twin_label": "switching"}],
         timeout={"quick": 100, "thorough": 1500},
-        bounds={"quick": "2 generators (4 body kinds each) x <= 2 driver steps, and 1 generator x <= 3 steps with a 4th driver context (a different contextvars.Context); each step: any live generator x 6 operations x 3-4 driver contexts", "thorough": "2 generators x <= 3 steps and 1 generator x <= 4 steps with 2 driver contexts; 2 generators x 2 steps with 3 contexts"},
+        bounds={"quick": "2 generators (4 body kinds each) x <= 2 driver steps, and 1 generator x <= 3 steps with a 4th driver context (a different contextvars.Context); each step: any live generator x 6 operations x 3-4 driver contexts", "thorough": "2 generators x <= 2 steps and 1 generator x <= 3 steps with 4 driver contexts; 1 generator x <= 4 steps with 2"},
     ),
 ]
